@@ -21,7 +21,7 @@ PEERS = ["p", "q", "r"]
 
 def ledger_consts(cfg, focus, save_before_apply, handover_before_add):
     return {"Period": cfg.period, "Timespan": cfg.timespan, "W": 32, "MaxFuture": cfg.max_future,
-            "InitialSubsidy": cfg.initial_subsidy, "HalvingInterval": cfg.halving, "MaxMoney": cfg.max_money, "RulesOff": set(),
+            "InitialSubsidy": cfg.initial_subsidy, "HalvingInterval": cfg.halving, "MaxMoney": min(cfg.max_money, 2 ** 31 - 1), "RulesOff": set(),
             "Horizon": ("<-", "HorizonT"), "Known": ("<-", "KnownT0"), "Peers": set(PEERS), "IbdSkip": 10000,
             "SaveBeforeApply": save_before_apply, "HandOverBeforeAdd": handover_before_add}
 
